@@ -8,6 +8,7 @@ mod run;
 mod scenario;
 mod seqwalk;
 mod sim;
+mod snapdrv;
 mod statedrv;
 mod wire;
 
@@ -193,6 +194,20 @@ fn cmd_packet(args: &[String]) -> i32 {
     0
 }
 
+fn cmd_snap(args: &[String]) -> i32 {
+    let seed: u64 = arg(args, "--seed").and_then(|s| s.parse().ok()).unwrap_or(1);
+    let n: usize = arg(args, "--n").and_then(|s| s.parse().ok()).unwrap_or(3);
+    let pause: u64 = arg(args, "--pause-us").and_then(|s| s.parse().ok()).unwrap_or(30);
+    let out = arg(args, "--out").unwrap_or("/dev/stdout");
+    let mut f = std::io::BufWriter::new(std::fs::File::create(out).expect("create out"));
+    let stats = snapdrv::run(seed, n, pause, &mut f);
+    f.flush().unwrap();
+    if let Some(path) = arg(args, "--stats") {
+        std::fs::write(path, serde_json::to_string(&stats).unwrap()).unwrap();
+    }
+    0
+}
+
 fn main() {
     let args: Vec<String> = std::env::args().collect();
     let code = match args.get(1).map(String::as_str) {
@@ -200,6 +215,7 @@ fn main() {
         Some("seqwalk") => cmd_seqwalk(&args[2..]),
         Some("state") => cmd_state(&args[2..]),
         Some("packet") => cmd_packet(&args[2..]),
+        Some("snap") => cmd_snap(&args[2..]),
         _ => {
             eprintln!("usage: vh sim --family F --seed S --n N --out FILE [--stats FILE]");
             2
